@@ -19,6 +19,8 @@ BOUNDS = {
 }
 OUTSIDE = "more than 3 datasets per group, more than 3x3 points per dataset, symbolic coordinates (C09/C08)"
 
+FLOAT_SELFCHECK = True
+
 
 def preload():
     from harness import pipeline  # noqa: F401
@@ -76,6 +78,24 @@ def base_configs():
         relations=[{"source": "s1", "target": "s2", "parameter": "rel1", "interval": [1.0, 2.0]}],
         penalties=[{"source": "s1", "source_intervals": [[1.0, 3.0]], "target": "s3", "target_intervals": [[1.0, 2.0]],
                     "parameter": "pen1"}])
+    add("relation-and-constraint-same-clp",
+        mcs={"m1": {"labels": ["s1", "s2", "s3"], "idx": True}},
+        datasets=[{"label": "d1", "mc": ["m1"], "maxis": A3, "gaxis": G3, "scale": "sc1"}],
+        constraints=[{"type": "zero", "target": "s2", "interval": [1.0, 2.0]}],
+        relations=[{"source": "s1", "target": "s2", "parameter": "rel1", "interval": [2.0, 3.0]}],
+        groups={"default": {"link_clp": False}})
+    add("relation-and-only-constraint-same-clp-linked",
+        mcs={"m1": {"labels": ["s1", "s2", "s3"]}},
+        datasets=[{"label": "d1", "mc": ["m1"], "maxis": A3, "gaxis": [1.0, 2.0]},
+                  {"label": "d2", "mc": ["m1"], "maxis": A3, "gaxis": [2.0, 3.0], "scale": "sc2"}],
+        constraints=[{"type": "only", "target": "s3", "interval": [1.0, 2.0]}],
+        relations=[{"source": "s1", "target": "s3", "parameter": "rel1", "interval": [2.0, 3.0]}],
+        groups={"default": {"link_clp": True}})
+    add("linked-three-scales-partial-overlap",
+        datasets=[{"label": "d1", "mc": ["m1"], "maxis": A2, "gaxis": [1.0, 2.0, 3.0], "scale": "sc1"},
+                  {"label": "d2", "mc": ["m1"], "maxis": A2, "gaxis": [2.0, 3.0, 4.0], "scale": "sc2"},
+                  {"label": "d3", "mc": ["m1"], "maxis": A2, "gaxis": [1.0, 3.0, 4.0, 5.0], "scale": "sc3"}],
+        groups={"default": {"link_clp": True}})
     add("unlinked-two-datasets-nnls",
         datasets=[{"label": "d1", "mc": ["m1"], "maxis": A2, "gaxis": G2},
                   {"label": "d2", "mc": ["m1"], "maxis": A3, "gaxis": G2, "scale": "sc2"}],
@@ -142,8 +162,6 @@ def random_configs(n, seed):
         if rng.random() < 0.4:
             cfg["relations"] = [{"source": "s2", "target": rng.choice(["s1", "s3"]), "parameter": "rel1",
                                  "interval": rng.choice([None, [1.0, 2.0], [2.0, 4.0]])}]
-            if cfg.get("constraints") and cfg["constraints"][0]["target"] == cfg["relations"][0]["target"]:
-                del cfg["constraints"]
         if rng.random() < 0.4:
             cfg["penalties"] = [{"source": "s2", "source_intervals": [rng.choice([[1.0, 2.0], [1.0, 4.0]])], "target": "s3",
                                  "target_intervals": [rng.choice([[2.0, 3.0], [1.0, INF]])], "parameter": "pen1"}]
